@@ -638,3 +638,221 @@ Section Plain.
     Qed.
   End Append.
 End Plain.
+
+(* ================================================================== *)
+(* 6. mix=> : flatten every level, then query once                     *)
+(* ================================================================== *)
+
+(* selector.go MixArray returns the leaves, left to right *)
+Lemma mix_array_leaves : forall v, mix_array v = leaves v.
+Proof.
+  induction v as [| b | f | s | l IH | kvs IH] using value_ind'; try reflexivity.
+  cbn [mix_array leaves]. induction IH as [|x l Hx _ IHl]; [reflexivity|].
+  cbn [flat_map]. rewrite IHl. f_equal. rewrite <- Hx. destruct x; reflexivity.
+Qed.
+
+Lemma leaves_flat rows : flat rows = true -> leaves (VArr rows) = rows.
+Proof.
+  cbn [leaves]. induction rows as [|v rows IH]; intros H; [reflexivity|].
+  cbn [flat forallb] in H. apply Bool.andb_true_iff in H. destruct H as [Hv H].
+  cbn [flat_map]. rewrite (IH H). destruct v; try discriminate Hv; reflexivity.
+Qed.
+
+Lemma leaves_arrays inners :
+  leaves (VArr (map VArr inners)) = List.concat (map (fun i => leaves (VArr i)) inners).
+Proof.
+  cbn [leaves]. induction inners as [|i inners IH]; [reflexivity|].
+  cbn [map flat_map List.concat]. now rewrite IH.
+Qed.
+
+Lemma leaves_outs outs : leaves (VArr outs) = List.concat (map leaves outs).
+Proof. cbn [leaves]. apply flat_map_concat_map. Qed.
+
+Lemma mix_array_flat rows : flat rows = true -> mix_array (VArr rows) = rows.
+Proof. rewrite mix_array_leaves. apply leaves_flat. Qed.
+
+Lemma mix_array_arrays inners :
+  mix_array (VArr (map VArr inners)) = List.concat (map (fun i => mix_array (VArr i)) inners).
+Proof.
+  rewrite mix_array_leaves, leaves_arrays. f_equal. apply map_ext. intros i. now rewrite mix_array_leaves.
+Qed.
+
+Section Mix.
+  Variable call : string -> string -> list value -> row -> res raw.
+  Variable join : jointype -> jstrategy -> list value -> list value -> string -> string ->
+                  expr stmt -> row -> res (list value).
+
+  (* one interpreter [rec] throughout: querying the flattened source returns the concatenation of
+     what the query returns on each innermost table *)
+  Theorem mix_concat_rec rec ctx s :
+    simple s = true -> plain_query s = true ->
+    forall src o,
+      concat_result (fun rows out => run_select rec call join ctx s (Some rows) = Ok out) src o ->
+      run_select rec call join ctx s (Some (mix_array (VArr src))) = Ok (VArr o).
+  Proof.
+    intros Hs Hp. fix IH 3. intros src o H. destruct H as [rows o Hf Hd | inners os Hall].
+    - rewrite mix_array_flat by auto. exact Hd.
+    - rewrite mix_array_arrays. apply run_concat; auto.
+      revert inners os Hall. fix IHl 3. intros inners os Hall.
+      destruct Hall as [|i o inners os Hio Hrest]; cbn [map]; constructor.
+      + apply IH. exact Hio.
+      + apply IHl. exact Hrest.
+  Qed.
+
+  (* a simple plain query on a table proper returns a table proper (objects) *)
+  Lemma run_flat_out rec ctx s rows out :
+    simple s = true -> flat rows = true ->
+    run_select rec call join ctx s (Some rows) = Ok out -> exists o, out = VArr o /\ flat o = true.
+  Proof.
+    intros Hs Hf H. rewrite run_simple in H by auto. apply catch_panic_ok in H.
+    apply bind_ok in H. destruct H as (f & Hfl & H).
+    apply bind_ok in H. destruct H as (o & Hm & H). inversion H; subst out. exists o. split; auto.
+    assert (Hobj : Forall (fun v => exists kv, v = VObj kv) f).
+    { clear -Hf Hfl. revert f Hfl. induction rows as [|v rows IH]; intros f Hfl.
+      - rewrite filter_rows_nil in Hfl. inversion Hfl. constructor.
+      - cbn [flat forallb] in Hf. apply Bool.andb_true_iff in Hf. destruct Hf as [Hv Hf].
+        destruct v; try discriminate Hv;
+          try (rewrite filter_rows_skip in Hfl by exact I; apply IH; auto).
+        rewrite filter_rows_obj in Hfl.
+        apply bind_ok in Hfl. destruct Hfl as (k & _ & Hfl).
+        apply bind_ok in Hfl. destruct Hfl as (rest & Hrest & Hfl). inversion Hfl.
+        specialize (IH Hf rest Hrest). destruct k; auto. constructor; eauto. }
+    clear -Hm Hobj. apply mapM_ok_Forall2 in Hm.
+    induction Hm as [|x y f o Hxy _ IH]; [reflexivity|].
+    inversion Hobj as [|? ? (kv & ->) Hobj']; subst.
+    cbn [project_row] in Hxy. apply bind_ok in Hxy. destruct Hxy as (r & _ & Hxy). inversion Hxy.
+    cbn [flat forallb is_arr negb andb]. apply IH. exact Hobj'.
+  Qed.
+
+  Lemma converges_flat_out ctx s rows out :
+    simple s = true -> flat rows = true ->
+    converges call join ctx s rows out -> exists o, out = VArr o /\ flat o = true.
+  Proof.
+    intros Hs Hf (m0 & H). specialize (H (S m0) ltac:(lia)). rewrite exec_rows in H.
+    eapply run_flat_out; eauto.
+  Qed.
+
+  (* the concatenation of the inner results is the nested result with every level flattened *)
+  Lemma nested_then_leaves (direct : list value -> value -> Prop) :
+    (forall rows out, flat rows = true -> direct rows out -> exists o, out = VArr o /\ flat o = true) ->
+    forall src out, nested_result direct src out -> concat_result direct src (leaves out).
+  Proof.
+    intros Hd. fix IH 3. intros src out H. destruct H as [rows out Hf Hdir | inners outs Hall].
+    - destruct (Hd _ _ Hf Hdir) as (o & -> & Ho). rewrite leaves_flat by auto. constructor; auto.
+    - rewrite leaves_outs. constructor.
+      revert inners outs Hall. fix IHl 3. intros inners outs Hall.
+      destruct Hall as [|i o inners outs Hio Hrest]; cbn [map]; constructor.
+      + apply IH. exact Hio.
+      + apply IHl. exact Hrest.
+  Qed.
+
+  Lemma concat_result_impl (d1 d2 : list value -> value -> Prop) :
+    (forall rows out, flat rows = true -> d1 rows out -> d2 rows out) ->
+    forall src o, concat_result d1 src o -> concat_result d2 src o.
+  Proof.
+    intros Hd. fix IH 3. intros src o H. destruct H as [rows o Hf Hdir | inners os Hall].
+    - constructor; auto.
+    - constructor.
+      revert inners os Hall. fix IHl 3. intros inners os Hall.
+      destruct Hall as [|i o inners os Hio Hrest]; constructor.
+      + apply IH. exact Hio.
+      + apply IHl. exact Hrest.
+  Qed.
+
+  (* through the fuelled interpreter *)
+  Theorem mix_concat ctx s :
+    simple s = true -> plain_query s = true ->
+    forall src o,
+      concat_result (converges call join ctx s) src o ->
+      converges call join ctx s (mix_array (VArr src)) (VArr o).
+  Proof.
+    intros Hs Hp src o H. exists 1%nat. intros m Hm. destruct m as [|m]; [lia|].
+    rewrite exec_rows. apply mix_concat_rec; auto.
+    eapply concat_result_impl; [|exact H]. cbv beta. intros rows out Hf Hc.
+    eapply converges_flat; eauto.
+  Qed.
+
+  (* the property as stated: whatever the nested query returns, the query over the flattened source
+     returns its leaves, i.e. the inner results concatenated *)
+  Theorem mix_is_flattened_nested ctx s :
+    simple s = true -> plain_query s = true ->
+    forall src out,
+      nested_result (converges call join ctx s) src out ->
+      converges call join ctx s src out /\
+      converges call join ctx s (mix_array (VArr src)) (VArr (leaves out)).
+  Proof.
+    intros Hs Hp src out H. split.
+    - apply nested_any_depth; auto.
+    - apply mix_concat; auto. apply nested_then_leaves; auto.
+      intros rows o Hf Hc. eapply converges_flat_out; eauto.
+  Qed.
+End Mix.
+
+(* ================================================================== *)
+(* 7. from the FROM clause to the rows                                  *)
+(* ================================================================== *)
+
+Section From.
+  Variable rec : qctx -> job -> res value.
+  Variable call : string -> string -> list value -> row -> res raw.
+  Variable join : jointype -> jstrategy -> list value -> list value -> string -> string ->
+                  expr stmt -> row -> res (list value).
+
+  Lemma register_no_ctes ctx : register_ctes ctx [] = ctx.
+  Proof. destruct ctx; reflexivity. Qed.
+
+  (* FROM path : the array the path resolves to (no CTE of that name, no alias) *)
+  Lemma build_from_table ctx k rest src :
+    cte_lookup k (c_ctes ctx) = None ->
+    reader (k :: rest) (VObj (c_data ctx)) = Ok (VArr src) ->
+    build_from rec join ctx (FTable (k :: rest) "") = Ok (Some src).
+  Proof. intros Hc Hr. cbn [build_from]. rewrite Hc, Hr. reflexivity. Qed.
+
+  (* FROM mix=>path : the same array with every level flattened *)
+  Lemma build_from_mix ctx path src :
+    reader path (VObj (c_data ctx)) = Ok (VArr src) ->
+    build_from rec join ctx (FTableFn "mix" path "") = Ok (Some (mix_array (VArr src))).
+  Proof. intros Hr. cbn [build_from]. rewrite Hr. reflexivity. Qed.
+
+  Theorem select_from_table ctx s k rest src :
+    s_with s = [] -> s_from s = FTable (k :: rest) "" ->
+    cte_lookup k (c_ctes ctx) = None ->
+    reader (k :: rest) (VObj (c_data ctx)) = Ok (VArr src) ->
+    exec_step rec call join ctx (JStmt (SSelect s)) = exec_step rec call join ctx (JRows s src).
+  Proof.
+    intros Hw Hf Hc Hr. cbn [exec_step]. rewrite Hw, register_no_ctes, Hf.
+    rewrite (build_from_table _ _ _ _ Hc Hr). reflexivity.
+  Qed.
+
+  Theorem select_from_mix ctx s path src :
+    s_with s = [] -> s_from s = FTableFn "mix" path "" ->
+    reader path (VObj (c_data ctx)) = Ok (VArr src) ->
+    exec_step rec call join ctx (JStmt (SSelect s)) =
+    exec_step rec call join ctx (JRows s (mix_array (VArr src))).
+  Proof.
+    intros Hw Hf Hr. cbn [exec_step]. rewrite Hw, register_no_ctes, Hf.
+    rewrite (build_from_mix _ _ _ Hr). reflexivity.
+  Qed.
+End From.
+
+(* the FROM clause is not consulted once the rows are resolved: the nested query (FROM path) and the
+   flattened one (FROM mix=>path) are the same query as far as run_select is concerned *)
+Definition with_from (f : from_clause stmt) (s : select stmt) : select stmt :=
+  {| s_with := s_with s; s_from := f; s_where := s_where s; s_group := s_group s;
+     s_having := s_having s; s_items := s_items s; s_distinct := s_distinct s;
+     s_order := s_order s; s_limit := s_limit s; s_offset := s_offset s |}.
+
+Lemma run_flat_from_irrelevant rec call join ctx s f rows :
+  flat rows = true ->
+  run_select rec call join ctx (with_from f s) (Some rows) = run_select rec call join ctx s (Some rows).
+Proof.
+  intros Hf. unfold run_select. f_equal.
+  assert (Hfr : forall E, filter_rows rec ctx (with_from f s) E rows = filter_rows rec ctx s E rows).
+  { intros E. induction rows as [|v rows IH]; [reflexivity|].
+    cbn [flat forallb] in Hf. apply Bool.andb_true_iff in Hf. destruct Hf as [Hv Hf].
+    destruct v; try discriminate Hv;
+      try (rewrite !filter_rows_skip by exact I; auto).
+    rewrite !filter_rows_obj, IH; auto. }
+  change (mk_env rec call join ctx (with_from f s)) with (mk_env rec call join ctx s).
+  rewrite Hfr. reflexivity.
+Qed.
